@@ -39,7 +39,7 @@ BOUNDS = {
              "per-mode sign pattern {+-1}^N per component (full product if <=64 else uniform+staggered), RB<=RA; "
              "score (weights: all for R<=2, 8 patterns for R=3) vs every ordered subset x 5 (pair-flip pattern, penalty) "
              "combinations + an unrelated tensor",
-    "thorough": "shapes order<=4,size<=3,cells<=18; all weight patterns everywhere (score too); same operations "
+    "thorough": "shapes order<=4,size<=3,cells<=18; all weight patterns everywhere (score: 16 patterns for rank 3); same operations "
                 "plus normtype inf; full flip product up to 512 patterns",
 }
 CHUNK = 12
@@ -90,6 +90,8 @@ def _objects(tier, seed, family="full"):
                 wl = _W_SMALL[R]
             elif family == "score" and not thorough:
                 wl = _W_SCORE[R]
+            elif family == "score" and R == 3:
+                wl = _W3_QUICK
             elif R == 3 and N >= 3 and not thorough:
                 wl = _W3_QUICK
             else:
@@ -913,6 +915,8 @@ def _run_fixsigns_ref(case, ctx):
             p.fail(name, "negative_weight", str(K.weights.tolist()), variant)
         # alignment: signs can only be fixed in pairs, so at most one mode per component stays anti-correlated
         for r in range(RB):
+            if not (wn[r] > 0 and wbn[r] > 0):
+                continue  # a zero-weight component has no defined sign convention after normalisation
             s = [float(K.factor_matrices[n][:, r] @ Ubn[n][:, r]) for n in range(N)]
             left = [n for n in range(N) if s[n] < -1e-9]
             if len(left) > 1:
